@@ -44,4 +44,5 @@ class sv_normalize_with_override:
             m = _rand_map(rng, rng.choice([OSU, QUA]))
             if len(m.bpms) == 0:
                 continue
-            yield dict(m=m, override_bpm=float(rng.choice([100, 177.5, 240])))
+            # references far from the chart's tempos too: the multiplier is whatever makes multiplier * bpm the reference
+            yield dict(m=m, override_bpm=float(rng.choice([100, 177.5, 240, 3000.0, 2.0, 12345.6])))
